@@ -931,7 +931,7 @@ def day_block(r, day, foods, envelope=True):
 PERDAY = [("reg", {}), ("reg", dict(shorten=True)), ("reg", dict(template="left-aligned")), ("reg", dict(old=True)), ("csv-log", {}), ("print", {}), ("reg", dict(single_food="e")), ("reg", dict(single_element="kcal"))]
 PERIOD = [("bal", {}), ("bal", dict(single_element="kcal")), ("totals", {}), ("quantity", {})]
 
-REGEX_RAW_BYTES = False     # set once Model/Reporters.v sends patterns that are not valid UTF-8 (or hold U+FFFD) through the regular-expression path (WP29)
+REGEX_RAW_BYTES = True      # Model/Reporters.v sends patterns that are not valid UTF-8 (or hold U+FFFD) through the regular-expression path (WP29)
 REGEXES = ["^br", "ea$", "b.*d", "[a-c]+", "tea|bread", "(meat)/(veal|pork)", "\\d+g", "(?i)BREAD", "e{2,3}", "a{2}", "^[^/]+$", "^drinks/.*/tea$", "[[:alpha:]]+", "\\pL", "(?i:TEA)|water",
            "[", "(", "*a", "a**", "\\", "a{1001}", "(?P<n>a)", "\\Qa.b\\E", "x?y*z+", ".", "^$", "é", "[^a-z/]", "a|", "()", "\\.", "\\bsweets\\b", "^(vegetables|sweets)/", "-", "a-very.*fit$",
            ] + ([b"\xff".decode("utf-8", "surrogateescape"), b"a\xef\xbf\xbdb".decode(), b"te\xc3".decode("utf-8", "surrogateescape")] if REGEX_RAW_BYTES else [])
